@@ -9,6 +9,7 @@ import (
 
 // Compute the RIB chnages for this neighbor
 func (dv *Router) ribUpdate(ns *table.NeighborState) {
+	dv.verifGate("rib-update")
 	dv.mutex.Lock()
 	defer dv.mutex.Unlock()
 
@@ -95,6 +96,7 @@ func (dv *Router) checkDeadNeighbors() {
 
 // Update the FIB
 func (dv *Router) fibUpdate() {
+	dv.verifGate("fib-update")
 	log.Debugf("Sychronizing updates to forwarding table")
 
 	dv.mutex.Lock()
